@@ -2,7 +2,10 @@
 
 package fp
 
-import "math/big"
+import (
+	"math"
+	"math/big"
+)
 
 func vDecRat(a *decimal) *big.Rat {
 	n := new(big.Int)
@@ -102,4 +105,30 @@ func vAssertRoundedInt(a *decimal, n uint64, id string) {
 
 func vAbsDecimal(d *decimal, lit []byte) {
 	d.set(lit)
+}
+
+// vAssertHalfwayFits, natively: the exact decimal literal of the midpoint above man*2^e2 must parse to
+// man*2^e2 (man is even: ties go to even) through ParseJSONFloatPrefix.
+func vAssertHalfwayFits(n int, man uint64, e2 int, id string) {
+	odd := new(big.Int).SetUint64(man)
+	odd.Lsh(odd, 1)
+	odd.Add(odd, big.NewInt(1))
+	q := 1 - e2
+	var lit string
+	if q > 0 {
+		// odd * 5^q / 10^q
+		num := new(big.Int).Mul(odd, new(big.Int).Exp(big.NewInt(5), big.NewInt(int64(q)), nil))
+		ds := num.String()
+		for len(ds) <= q {
+			ds = "0" + ds
+		}
+		lit = ds[:len(ds)-q] + "." + ds[len(ds)-q:]
+	} else {
+		lit = new(big.Int).Lsh(odd, uint(-q)).String()
+	}
+	f, nn, err := ParseJSONFloatPrefix([]byte(lit))
+	want := math.Ldexp(float64(man), e2)
+	if err != nil || nn != len(lit) || math.Float64bits(f) != math.Float64bits(want) {
+		vFailures = append(vFailures, id)
+	}
 }
